@@ -209,6 +209,37 @@ def run_case(r, obs):
                                   "Slice%r and two deep copies of it filled in turn over %r: "
                                   "element %d filled %r, expected %r"
                                   % (args, xs, gi, c.got, [v + 1000 * gi for v in ref]))
+                if n == nmax and len(ref) >= 2:
+                    # an element whose fill raises StopIteration for one selected value (next()
+                    # on an exhausted iterator inside it): that is the element's failure, not
+                    # the end of the slice - LenaStopFill would make Split drop the branch quietly
+                    class FailsAt(object):
+                        def __init__(self, k):
+                            self.k, self.got = k, []
+
+                        def fill(self, v):
+                            if len(self.got) == self.k:
+                                raise StopIteration("element failed")
+                            self.got.append(v)
+                    fa = FailsAt(len(ref) // 2)
+                    s2 = lena.flow.Slice(*args)
+                    outcome = None
+                    for i, x in enumerate(xs):
+                        try:
+                            s2.fill_into(fa, x)
+                        except lena.core.LenaStopFill:
+                            outcome = ("LenaStopFill", i)
+                            break
+                        except (StopIteration, RuntimeError):
+                            outcome = ("propagated", i)
+                            break
+                    obs.count("fill_into_histories")
+                    later = [j for j in selected if outcome and j > outcome[1] and j < n]
+                    obs.check(not (outcome and outcome[0] == "LenaStopFill" and later),
+                              "slice-stopfill-too-early:element-fill-raises-StopIteration",
+                              "Slice%r.fill_into: the filled element raised StopIteration at flow "
+                              "index %r; Slice turned it into LenaStopFill although the indices %r "
+                              "are still selected" % (args, outcome and outcome[1], later))
                 if ref:
                     obs.nontrivial = True
                 obs.check(col.got == ref, "slice-fill_into-differs",
@@ -339,6 +370,29 @@ def run_case(r, obs):
                            for c in combo) else "iterable-kinds"),
                           "Chain(%s)() = %r, itertools.chain gives %r" % (", ".join(combo), got, ref))
                 obs.count("chain_runs")
+        # a result abandoned half-way: like itertools.chain, Chain does not touch its inputs
+        # beyond what it was asked for (a generator given to it can be read on afterwards)
+        for take in range(0, 6):
+            for how in ("close", "drop", "keep"):
+                def mkgens():
+                    return (i for i in range(4)), iter([10, 11]), (i for i in range(20, 23))
+                g_real, g_ref = mkgens(), mkgens()
+                res = lena.flow.Chain(*g_real)()
+                ref_it = itertools.chain(*g_ref)
+                got = list(itertools.islice(res, take))
+                exp = list(itertools.islice(ref_it, take))
+                if how == "close":
+                    res.close()
+                elif how == "drop":
+                    del res
+                rest = [list(g) for g in g_real]
+                rest_ref = [list(g) for g in g_ref]
+                obs.count("chain_runs")
+                obs.check(got == exp and rest == rest_ref,
+                          "chain-differs:inputs-after-an-abandoned-result",
+                          "Chain(gen, iterator, gen)() read for %d values then %s: got %r, and the "
+                          "inputs still hold %r; with itertools.chain %r and %r"
+                          % (take, how, got, rest, exp, rest_ref))
     elif k == "countfrom":
         obs.nontrivial = True
         for start in [0, 1, -5, 2.5, 10 ** 12]:
@@ -421,3 +475,5 @@ TECHNIQUE = "exhaustive workload + reference-model oracle (list slicing / iterto
 RULE += (' Chain is also given every kind of iterable itertools.chain accepts (dicts and views, sets, '
          'deques, one-shot iterators, objects with only __iter__, objects iterable through '
          '__getitem__ only such as ctypes arrays).')
+RULE += (' Added: Chain results abandoned half-way (closed / dropped): the inputs can be read on as '
+         'with itertools.chain; Slice.fill_into into an element whose fill raises StopIteration.')
